@@ -13,6 +13,12 @@ var havocFns = map[string]bool{}
 
 var havocCount int
 
+// summaries: calls to the named function execute a harness-provided replacement (an assumed
+// contract, listed in the evidence as a stub). Natively the real function runs.
+var summaryNames = map[string]string{}
+var summaryFns = map[string]*ssa.Function{}
+
+
 func havocResult(fn *ssa.Function) value {
 	res := fn.Signature.Results()
 	switch res.Len() {
